@@ -30,15 +30,19 @@ PLANS = {
     "C14": vm_plan(),
 }
 
+import os as _os
+_PINNED = ["--pinned", _os.path.join(_os.path.dirname(_os.path.dirname(_os.path.abspath(__file__))), "pinned", "opcodes.tsv")]
+
+
 def codec_plan():
-    return {"quick": [vh("codec-release", "codec", "release", 1.0, timeout=600), vh("codec-dev", "codec", "dev", 0.1, timeout=600)],
-            "thorough": [vh("codec-release", "codec", "release", 1.0, timeout=3000), vh("codec-relchk", "codec", "relchk", 0.2, timeout=3000)]}
+    return {"quick": [vh("codec-release", "codec", "release", 1.0, timeout=600, args=_PINNED), vh("codec-dev", "codec", "dev", 0.1, timeout=600, args=_PINNED)],
+            "thorough": [vh("codec-release", "codec", "release", 1.0, timeout=3000, args=_PINNED), vh("codec-relchk", "codec", "relchk", 0.2, timeout=3000, args=_PINNED)]}
 
 
 PLANS["C13"] = codec_plan()
 PLANS["C15"] = codec_plan()
 for _t in ("quick", "thorough"):
-    PLANS["C14"][_t] = PLANS["C14"][_t] + [vh("codec-release", "codec", "release", 1.0, timeout=3000)]
+    PLANS["C14"][_t] = PLANS["C14"][_t] + [vh("codec-release", "codec", "release", 1.0, timeout=3000, args=_PINNED)]
 
 def simple_plan(engine, dev_scale=0.1):
     return {"quick": [vh(engine + "-release", engine, "release", 1.0, timeout=600), vh(engine + "-dev", engine, "dev", dev_scale, timeout=600)],
